@@ -132,14 +132,23 @@ def _s1(program, res):
             res.fail_at("C16-S1", sqlite_nj, f"sqlite-no-rewrite:{jt}", f"SQLiteModel no longer rewrites {jt} joins")
 
 
+def _pair_guard_sets(fnode):
+    """locals used as the right side of a membership test on a column variable: `c not in X` / `c in X`"""
+    used = set()
+    for n in ast.walk(fnode):
+        if isinstance(n, ast.Compare) and len(n.ops) == 1 and isinstance(n.ops[0], (ast.In, ast.NotIn)) and isinstance(n.left, ast.Name) \
+                and isinstance(n.comparators[0], ast.Name):
+            used.add(n.comparators[0].id)
+    return [st for st in ast.walk(fnode) if isinstance(st, ast.Assign) and len(st.targets) == 1 and isinstance(st.targets[0], ast.Name)
+            and st.targets[0].id in used and isinstance(st.value, (ast.SetComp, ast.ListComp, ast.GeneratorExp, ast.Call, ast.Set, ast.BinOp))
+            and ("on_a" in unparse(st.value) or "on_b" in unparse(st.value))]
+
+
 def twin_cleanup_rule(program, res, rule="C16-S3"):
-    """Pandas natural join: which suffixed twins exist is decided on key *pairs*"""
+    """Pandas natural join: which suffixed twins exist is decided on key *pairs*, and every twin is removed in every iteration"""
     pj = program.method("pandas_base", "PandasModelBase", "_natural_join_step", inherited=False)
     res.analysed(pj)
-    # S3b: twin clean-up decided on key pairs
-    guard_sets = [st for st in ast.walk(pj.node) if isinstance(st, ast.Assign) and isinstance(st.targets[0], ast.Name)
-                  and any(isinstance(i, ast.If) and isinstance(i.test, ast.Compare) and isinstance(i.test.ops[0], ast.NotIn)
-                          and unparse(i.test.comparators[0]) == st.targets[0].id for i in ast.walk(pj.node))]
+    guard_sets = _pair_guard_sets(pj.node)
     if not guard_sets:
         raise AnalysisError("Pandas _natural_join_step: twin clean-up guard set not found")
     gs = guard_sets[-1]
@@ -153,6 +162,69 @@ def twin_cleanup_rule(program, res, rule="C16-S3"):
                     f"`{unparse(gs)[:90]}` decides which shared columns pandas merged into one: pandas merges a key pair only when "
                     f"both names are equal *in the same pair*; a set-based test (on_a only, or on_a ∩ on_b) leaves "
                     f"`<col>_tmp_right_col` in the result for crossed or differently named keys", gs)
+    # every iteration of the clean-up loop removes the twin, or skips a column that has none (an equal-named key pair)
+    fn = inline_local_consts(pj.node)
+    suffix = None
+    for c in ast.walk(fn):
+        if isinstance(c, ast.Call) and isinstance(c.func, ast.Attribute) and c.func.attr == "merge":
+            for kw in c.keywords:
+                if kw.arg == "suffixes" and isinstance(kw.value, ast.Tuple) and len(kw.value.elts) == 2 and isinstance(kw.value.elts[1], ast.Constant):
+                    suffix = kw.value.elts[1].value
+    if not suffix:
+        raise AnalysisError("Pandas _natural_join_step: merge suffixes=('', <right suffix>) not found")
+    g = cfgmod.build(fn)
+    gname = gs.targets[0].id
+
+    def removes(stmt, loopvar, aliases) -> bool:
+        t = unparse(stmt)
+        keys = [f"{loopvar} + '{suffix}'"] + list(aliases)
+        return any((f".drop({k}" in t or f".drop([{k}]" in t or f"del res[{k}]" in t or f".drop(columns=[{k}]" in t or f".drop(columns={k}" in t) for k in keys)
+
+    loops = [n for n in g.stmt_nodes(("iter",)) if isinstance(n.stmt.target, ast.Name)]
+    checked = 0
+    for ln in loops:
+        lv = ln.stmt.target.id
+        aliases = {st.targets[0].id for st in ast.walk(ln.stmt) if isinstance(st, ast.Assign) and len(st.targets) == 1 and isinstance(st.targets[0], ast.Name)
+                   and unparse(st.value) == f"{lv} + '{suffix}'"}
+        body_nodes = [x for x in ast.walk(ln.stmt) if isinstance(x, ast.stmt) and x is not ln.stmt]
+        if not any(removes(x, lv, aliases) for x in body_nodes if not isinstance(x, (ast.If, ast.For, ast.While))):
+            continue
+        checked += 1
+        bad_path = None
+        n_paths = 0
+        for path in g.paths(start=ln.id, targets={ln.id}, limit=5000):
+            if len(path) < 2 or path[0][1] is not True:
+                continue
+            n_paths += 1
+            ok = False
+            for (nid, label) in path[1:-1]:
+                node = g.nodes[nid]
+                if node.kind == "stmt" and removes(node.stmt, lv, aliases):
+                    ok = True
+                if node.kind == "test" and isinstance(node.cond, ast.Compare) and len(node.cond.ops) == 1 and isinstance(node.cond.left, ast.Name) \
+                        and node.cond.left.id == lv and isinstance(node.cond.comparators[0], ast.Name) and node.cond.comparators[0].id == gname:
+                    is_in = isinstance(node.cond.ops[0], ast.In)
+                    if (is_in and label is True) or ((not is_in) and label is False):
+                        ok = True  # this column is an equal-named key pair: pandas made no twin
+            if not ok:
+                bad_path = path
+                break
+        if bad_path is not None:
+            conds = [f"{unparse(g.nodes[nid].cond)[:50]} is {label}" for (nid, label) in bad_path if g.nodes[nid].kind == "test"]
+            res.fail_at(rule, pj, "twin-not-removed-on-some-path",
+                        f"one iteration of the shared-column clean-up in {pj.qualname} can finish without removing `{lv} + {suffix!r}` "
+                        f"(path: {'; '.join(conds) or 'straight'}): the suffixed twin stays in the result, a column the pipeline does not declare", ln.stmt)
+        else:
+            res.ok(rule, f"Pandas: every iteration of the clean-up loop ({n_paths} paths) removes `{lv} + {suffix!r}` or skips an equal-named key pair")
+    if checked == 0:
+        others = [st for st in ast.walk(fn) if isinstance(st, ast.stmt) and not isinstance(st, (ast.FunctionDef, ast.For, ast.If, ast.While))
+                  and f"'{suffix}'" in unparse(st) and ("drop" in unparse(st) or "del " in unparse(st) or ".loc[" in unparse(st))
+                  and "merge(" not in unparse(st) and "= res.loc[is_null" not in unparse(st)]
+        if others:
+            res.abstain(rule, f"Pandas: the `<col>{suffix}` twins are removed outside a per-column loop (`{unparse(others[0])[:70]}`)",
+                        "removal form not decided by the per-iteration path rule")
+            return
+        res.fail_at(rule, pj, "twin-never-removed", f"no loop of {pj.qualname} removes the `<col>{suffix}` twins that pandas.merge creates for shared columns")
 
 
 def _s3(program, res):
